@@ -176,9 +176,15 @@ func ToId(i IdProperty) (*url.URL, error) {
 // valid on this type, or it is also not set.
 func GetId(t vocab.Type) (*url.URL, error) {
 	if id := t.GetJSONLDId(); id != nil {
+		if !id.IsIRI() {
+			return nil, fmt.Errorf("cannot determine id of activitystreams value: 'id' is not an IRI")
+		}
 		return id.Get(), nil
 	} else if h, ok := t.(hrefer); ok {
 		if href := h.GetActivityStreamsHref(); href != nil {
+			if !href.IsIRI() {
+				return nil, fmt.Errorf("cannot determine id of activitystreams value: 'href' is not an IRI")
+			}
 			return href.Get(), nil
 		}
 	}
